@@ -348,6 +348,10 @@ def gen_case(rng, i, max_ops=10):
         surfaces.append([n, shape, tr])
     if rng.random() < 0.5:
         transforms.append(rng.choice([6, 7, transforms[0] if transforms and rng.random() < 0.3 else 8]))
+        if rng.random() < 0.4:
+            # a surface of the file is given this transform (not in the file) after reading: only
+            # add_cell_children_to_problem brings it into problem.transforms / data_inputs
+            rng.choice(surfaces)[2] = len(transforms) - 1
     for _ in range(rng.randint(1, 3)):
         r = rng.random()
         tr = rng.randrange(len(transforms)) if transforms and rng.random() < 0.3 else None
